@@ -82,6 +82,16 @@ KIND = {"sd": "sd", "urf": "sd", "Tree.sd": "sd", "fpfn": "fpfn", "Tree.fpfn": "
 def bounds(tier):
     b = _bounds(tier)
     big = big_set()
+    b["keyword_options"] = {
+        "edge_weight_attr": "'weight' set by the harness on every edge; weighted_robinson_foulds_distance, euclidean_distance, "
+                            "robinson_foulds_distance; drawings with one edge per split, n = 3, 4 all ordered pairs (n = 5 "
+                            "against 4 fixed partners): weights != lengths on every edge (two integer patterns with exact "
+                            "zeros, one float pattern, every {0,1} assignment), lengths all missing, every single / all / "
+                            "internal / leaf weights missing in both argument orders",
+        "value_type": "int (euclidean_distance; integer weights, integer lengths) besides the float default",
+        "is_bipartitions_updated": "True after a fresh explicit encode (all functions incl. the unweighted alias, also combined "
+                                   "with edge_weight_attr / value_type) and True on never-encoded trees, besides the default False",
+        "Tree_methods": "take no options"}
     b["large_representatives"] = {
         "note": "exhaustive over this stated set only (both tiers): every ordered pair of equal-size trees, all five "
                 "functions, unit and cyclic 1-2-3 lengths, both rootings; triangle inequality on all triples of equal-size "
@@ -744,6 +754,208 @@ def eval_reorder(ctx, rooted, sa, sb, fns, cfg="exact"):
 
 
 # ---------------------------------------------------------------------------
+# keyword options: edge_weight_attr, value_type (with is_bipartitions_updated)
+
+OPT_FNS = ("wrf", "euc", "legacy_rf")
+
+
+def set_weights(tree, wsn):
+    """put the harness's custom attribute `weight` on every edge (parallel walk)"""
+    def rec(nd, w):
+        nd._edge.weight = w[2]
+        kids = nd._child_nodes
+        assert len(kids) == len(w[3])
+        for c, wc in zip(kids, w[3]):
+            rec(c, wc)
+    rec(tree._seed_node, wsn)
+
+
+def opt_call(fn, ta, tb, attr, vtype, updated):
+    kw = {"edge_weight_attr": attr}
+    if fn == "legacy_rf":
+        return TC.robinson_foulds_distance(ta, tb, **kw)
+    if updated:
+        kw["is_bipartitions_updated"] = True
+    if fn == "wrf":
+        return TC.weighted_robinson_foulds_distance(ta, tb, **kw)
+    if vtype == "int":
+        kw["value_type"] = int
+    return TC.euclidean_distance(ta, tb, **kw)
+
+
+def opt_fresh(env, rooted, sx, sy, wx, wy, prep):
+    tx = build.build_tree((rooted, sx), env.ns)
+    ty = build.build_tree((rooted, sy), env.ns)
+    set_weights(tx, wx)
+    set_weights(ty, wy)
+    if prep == "encoded":
+        tx.encode_bipartitions()
+        ty.encode_bipartitions()
+    return tx, ty
+
+
+def eval_opt(ctx, rooted, sa, sb, wa, wb, fns, attr="weight", vtype=None, prep="fresh", both=False):
+    """the weighted distances with non-default keyword options.  sa, sb carry the edge
+    lengths, wa, wb (same shapes) the custom attribute `weight`; the reference is the same
+    L1 / L2 definition evaluated on the attribute named by `attr`.  Domain: one edge per
+    split (no unifurcations, no unrooted basal bifurcation) - the library merges only
+    .length when it suppresses nodes, a custom attribute has no defined merge.
+    both=False: complete attribute values, no refusal allowed, value = definition.
+    both=True: some values missing; both argument orders: refused for both or neither,
+    where defined the values agree with each other and with the None-as-0 reading."""
+    n = nleaves(sa)
+    env = Env.get(n, "exact")
+    isr = bool(rooted)
+    ra, rb = (wa, wb) if attr == "weight" else (sa, sb)
+    suffix = "|edge_weight_attr=%s" % attr if attr != "length" else ""
+    if vtype:
+        suffix += "|value_type=%s" % vtype
+    if prep != "fresh":
+        suffix += "|is_bipartitions_updated=True"
+    ctx.case(("opt", rooted, sa, sb, wa, wb, fns, attr, vtype, prep, both), nontrivial=n >= 3, n=len(fns) * (2 if both else 1))
+    for fn in fns:
+        if vtype and fn != "euc":
+            continue
+        kind = KIND[fn]
+        case = {"kind": "opt", "rooted": rooted, "a": sa, "b": sb, "wa": wa, "wb": wb, "fns": [fn], "attr": attr,
+                "value_type": vtype, "prep": prep, "both": both}
+        res = []
+        for (sx, sy, wx, wy) in (((sa, sb, wa, wb), (sb, sa, wb, wa)) if both else ((sa, sb, wa, wb),)):
+            tx, ty = opt_fresh(env, rooted, sx, sy, wx, wy, prep)
+            try:
+                res.append(("ok", opt_call(fn, tx, ty, attr, vtype, prep != "fresh")))
+            except Exception as e:
+                res.append(("exc", e))
+        ctx.count("option_calls", len(res))
+        exps = expected(kind, ra, rb, isr)
+        if not both:
+            st, v = res[0]
+            if st == "exc":
+                ctx.violation("%s|exception|%s%s" % (NAMES[fn], type(v).__name__, suffix),
+                              "%s(A, B, edge_weight_attr=%r%s) raised %r; %s: A=%s B=%s [%s]" % (
+                                  NAMES[fn], attr, ", value_type=int" if vtype else "", v, attr, nwk(ra), nwk(rb), rootname(rooted)), case)
+            elif not value_ok(kind, v, exps, False):
+                ctx.violation("%s|value|%s|%s%s" % (NAMES[fn], rootname(rooted), feature(isr, sa, sb), suffix),
+                              "%s(A, B, edge_weight_attr=%r%s) [%s] = %r, definition on %s gives %r; %s: A=%s B=%s; length: A=%s B=%s" % (
+                                  NAMES[fn], attr, ", value_type=int" if vtype else "", prep, v, attr, exps[0], attr, nwk(ra), nwk(rb),
+                                  nwk(sa), nwk(sb)), case)
+            continue
+        (s1, v1), (s2, v2) = res
+        if (s1 == "ok") != (s2 == "ok"):
+            ctx.violation("%s|definedness-asymmetric%s" % (NAMES[fn], suffix),
+                          "%s(A,B): %s, (B,A): %s; %s: A=%s B=%s [%s]" % (NAMES[fn], (s1, v1), (s2, v2), attr, nwk(ra), nwk(rb), rootname(rooted)), case)
+        elif s1 == "exc":
+            ctx.count("option_refused_both_orders")
+            if not (has_missing(ra, isr) or has_missing(rb, isr)):
+                ctx.violation("%s|exception|%s%s" % (NAMES[fn], type(v1).__name__, suffix),
+                              "%s refuses trees with complete %s values: %r" % (NAMES[fn], attr, v1), case)
+        else:
+            ctx.count("option_defined_both_orders")
+            if not ref.feq(v1, v2):
+                ctx.violation("%s|asymmetric-value%s" % (NAMES[fn], suffix),
+                              "%s(A,B)=%r (B,A)=%r; %s: A=%s B=%s" % (NAMES[fn], v1, v2, attr, nwk(ra), nwk(rb)), case)
+            elif not value_ok(kind, v1, exps, False):
+                ctx.violation("%s|value|missing-value|%s|%s%s" % (NAMES[fn], rootname(rooted), feature(isr, sa, sb), suffix),
+                              "%s = %r in both orders, definition (missing read as 0) gives %r; %s: A=%s B=%s" % (
+                                  NAMES[fn], v1, exps[0], attr, nwk(ra), nwk(rb)), case)
+
+
+def opt_shapes(n, rooted):
+    """drawings with exactly one edge per split: U(n) for rooted trees; for unrooted trees each
+    shape re-drawn with the seed on an internal node of degree >= 3 (duplicates removed)"""
+    if rooted:
+        return U.shapes(n)
+    out = []
+    for s in U.shapes(n):
+        d = U.redrawings(s)[0]
+        if not isinstance(d, int) and len(d) >= 3 and d not in out:
+            out.append(d)
+    return out
+
+
+def _len_far(i, leaf, depth):
+    return None if depth == 0 else i + 11          # never equal to a weight below
+
+
+def _w_a(i, leaf, depth):
+    return None if depth == 0 else (0, 2, 1)[i % 3]
+
+
+def _w_b(i, leaf, depth):
+    return None if depth == 0 else (3, 0, 1, 0)[i % 4]
+
+
+def _w_half(i, leaf, depth):
+    return None if depth == 0 else 0.5 * (i % 3)
+
+
+def run_opt(chunk, ctx):
+    n, rooted, sub = chunk["n"], chunk["rooted"], chunk["sub"]
+    shapes = opt_shapes(n, rooted)
+    lo, hi = chunk.get("lo", 0), min(chunk.get("hi", len(shapes)), len(shapes))
+    mk = ref.mk
+    if n >= 5:
+        fidx = sorted(set([0, len(shapes) // 3, len(shapes) // 2, len(shapes) - 1]))
+    else:
+        fidx = list(range(len(shapes)))
+    if sub == "a":
+        # (a) weights != lengths on every edge, both numeric (weights contain exact zeros)
+        for i in range(lo, hi):
+            for j in (range(len(shapes)) if n <= 4 else fidx):
+                for pa, pb in (((_w_a, _w_b), (_w_b, _w_a)) if n <= 4 else ((_w_a, _w_b),)):
+                    sa, sb = mk(shapes[i], _len_far), mk(shapes[j], _len_far)
+                    wa, wb = mk(shapes[i], pa), mk(shapes[j], pb)
+                    eval_opt(ctx, rooted, sa, sb, wa, wb, OPT_FNS)
+                    if n >= 5:
+                        eval_opt(ctx, rooted, sb, sa, wb, wa, OPT_FNS)
+                    if n <= 4 and pa is _w_a:
+                        eval_opt(ctx, rooted, sa, sb, wa, wb, ("wrf", "euc"), prep="encoded")
+                        eval_opt(ctx, rooted, sa, sb, wa, wb, ("euc",), vtype="int")
+                        eval_opt(ctx, rooted, sa, sb, wa, wb, ("euc",), vtype="int", prep="encoded")
+                        # value_type=int on the default attribute, and float weights
+                        eval_opt(ctx, rooted, sa, sb, sa, sb, ("euc",), attr="length", vtype="int")
+                        eval_opt(ctx, rooted, sa, sb, mk(shapes[i], _w_half), wb, ("wrf", "euc"))
+                    ctx.count("option_pairs_weights_differ_from_lengths")
+    elif sub == "a01":
+        # every {0,1} assignment of the weights of A (n <= 3: of both trees)
+        for i in range(lo, hi):
+            WA = x12_snaps(shapes[i], roots=(None,), alphabet=(0, 1))
+            sa = mk(shapes[i], _len_far)
+            for j in range(len(shapes)):
+                sb = mk(shapes[j], _len_far)
+                WB = x12_snaps(shapes[j], roots=(None,), alphabet=(0, 1)) if n <= 3 else (
+                    [mk(shapes[j], _w_b)] if shapes[j] in fixed_partners(n) or j in (0, len(shapes) - 1) else [])
+                for wa in WA:
+                    for wb in WB:
+                        eval_opt(ctx, rooted, sa, sb, wa, wb, ("wrf", "euc"))
+                        eval_opt(ctx, rooted, sb, sa, wb, wa, ("wrf", "euc"))
+                        ctx.count("option_pairs_01_weights", 2)
+    elif sub == "b":
+        # (b) weights numeric, lengths all missing
+        for i in range(lo, hi):
+            for j in range(len(shapes)):
+                sa, sb = mk(shapes[i], None), mk(shapes[j], None)
+                eval_opt(ctx, rooted, sa, sb, mk(shapes[i], _w_a), mk(shapes[j], _w_b), OPT_FNS)
+                eval_opt(ctx, rooted, sa, sb, mk(shapes[i], _unit), mk(shapes[j], _unit), ("wrf", "euc"), prep="encoded")
+                ctx.count("option_pairs_lengths_missing")
+    elif sub == "c":
+        # (c) lengths numeric, some weights missing: both orders
+        for i in range(lo, hi):
+            sa = mk(shapes[i], _len_far)
+            partners = [(shapes[j], mk(shapes[j], _unit)) for j in (fidx if n >= 4 else range(len(shapes)))]
+            partners.append((shapes[i], mk(shapes[i], _unit)))
+            partners.append((shapes[i], mk(shapes[i], None)))
+            for tag, wa in missing_variants(shapes[i]):
+                for shb, wb in partners:
+                    eval_opt(ctx, rooted, sa, mk(shb, _len_far), wa, wb, ("wrf", "euc"), both=True)
+                    ctx.count("option_pairs_weights_missing")
+    else:
+        raise ValueError(sub)
+    ctx.sample({"layer": "options/" + sub, "rooting": rootname(rooted), "leaves": n, "drawings": len(shapes),
+                "edge_weight_attr": "weight"}, 1)
+
+
+# ---------------------------------------------------------------------------
 # chunk kinds
 
 def chunks(tier):
@@ -869,6 +1081,17 @@ def chunks(tier):
     for n in range(1, b["foreign_ns_max_leaves"] + 1):
         for rooted in (True, False):
             add(kind="foreign", n=n, rooted=rooted)
+    # (9) keyword options (edge_weight_attr, value_type, is_bipartitions_updated)
+    for rooted in (True, False):
+        for n in (3, 4, 5):
+            ns = len(opt_shapes(n, rooted))
+            step = ns if n <= 3 else (7 if n == 4 else 30)
+            for lo in range(0, ns, step):
+                add(kind="opt", sub="a", n=n, rooted=rooted, lo=lo, hi=lo + step)
+                if n <= 4:
+                    add(kind="opt", sub="a01", n=n, rooted=rooted, lo=lo, hi=lo + step)
+                    add(kind="opt", sub="b", n=n, rooted=rooted, lo=lo, hi=lo + step)
+                    add(kind="opt", sub="c", n=n, rooted=rooted, lo=lo, hi=lo + step)
     # (8) large representatives
     big = big_set()
     for rooted in (True, False):
@@ -924,7 +1147,7 @@ def run_flags(chunk, ctx):
     for a in sn:
         for b in sn:
             for prep in ("encoded", "updated-unencoded"):
-                eval_pair(ctx, rooted, a, b, CORE, prep=prep)
+                eval_pair(ctx, rooted, a, b, CORE + ("urf",), prep=prep)
                 ctx.count("flag_pairs")
 
 
@@ -1565,6 +1788,10 @@ def replay(case, ctx):
             eval_pair_both(ctx, rooted, sa, sb, fns, cfg=case.get("ns", "exact"))
         else:
             eval_pair(ctx, rooted, sa, sb, fns, cfg=case.get("ns", "exact"), prep=case.get("prep", "fresh"), exact=False)
+    elif k == "opt":
+        eval_opt(ctx, rooted, tup(case["a"]), tup(case["b"]), tup(case["wa"]), tup(case["wb"]), tuple(case["fns"]),
+                 attr=case.get("attr", "weight"), vtype=case.get("value_type"), prep=case.get("prep", "fresh"),
+                 both=bool(case.get("both")))
     elif k == "reorder":
         eval_reorder(ctx, rooted, tup(case["a"]), tup(case["b"]), tuple(case["fns"]), cfg=case.get("ns", "exact"))
     elif k == "hist":
